@@ -3,6 +3,7 @@ from engine import *
 import ordimpls
 import provenance
 import mutations
+import accessors
 
 GP = 'lightning::routing::gossip::'
 NG = GP + 'NetworkGraph::'
@@ -743,3 +744,4 @@ RULES = [
 RULES.append(('17.t', 'identity comparisons: every reviewed (function, identity type) == / != comparison (HTLCSource, Txid, OutPoint, ChannelId, PaymentHash, PublicKey, ...) is still made - a function does not silently change what it matches by (rules/provenance.py)', lambda F: provenance.ids_for_property(F, 'C17', '17.t')))
 RULES.append(('17.P', 'panic sites: no reviewed function that parses / handles untrusted input gained an unwrap / expect / explicit panic / bounds-checked index / length-checked copy / division (rules/provenance.py; panic freedom itself is not decided)', lambda F: provenance.panics_for_property(F, 'C17', '17.P')))
 RULES.append(('17.M', 'collection mutations: every reviewed (function, stored collection, mutator class: add / remove / filter / empty / swap / order) triple is still present - an entry that is no longer removed, inserted or drained on one path (rules/mutations.py)', lambda F: mutations.for_property(F, 'C17', '17.M')))
+RULES.append(('17.A', 'enum accessors agree across sibling variants: an accessor that returns the payload field `x` for one variant returns it for every variant whose payload carries a field of that name and type (a variant moved to the `=> None` arm) - rules/accessors.py', lambda F: accessors.for_property(F, 'C17', '17.A')))
